@@ -106,6 +106,15 @@ def run_word(segs, quote, env, status, how):
                 pre += "%s='%s' ; " % (k, v)
             else:
                 pre += "%s='stale-%s' ; export %s='%s' ; " % (k, k, k, v)
+    elif how == "assign-export-assign":
+        # three steps on one name: the last assignment is the current value
+        for k, v in env.items():
+            pre += "%s='stale-%s' ; export %s='old-%s' ; %s='%s' ; " % (k, k, k, k, k, v)
+    elif how == "read":
+        # the value arrives through `read` into a name that already holds an exported value
+        extra = {k: "old-" + k for k in env}
+        for k, v in env.items():
+            pre += "read %s <<< '%s' ; " % (k, v)
     else:   # export-then-assign: an exported name re-assigned as a plain variable takes the new value
         extra = {k: "old-" + k for k in env}
         for k, v in env.items():
@@ -253,8 +262,12 @@ def gen_case(rng):
     if rng.random() < 0.35:
         before = [rng.randrange(len(NEIGHBOURS)) for _ in range(rng.randint(1, 2))]
         after = [rng.randrange(len(NEIGHBOURS))] if rng.random() < 0.4 else []
-    return {"segs": segs, "quote": rng.choice(["unq", "dq", "dq", "sq"]), "env": env, "classes": classes, "before": before, "after": after,
-            "status": rng.choice([0, 3, 127]), "how": rng.choice(["export", "assign", "export", "assign", "assign-then-export", "export-then-assign"])}
+    how = rng.choice(["export", "assign", "export", "assign", "assign-then-export", "export-then-assign", "assign-export-assign", "read"])
+    if how == "read" and any(v != v.strip(" ") or "\\" in v or v == "" for v in env.values()):
+        # `read` trims blanks at both ends of the line and has its own backslash rules: not this property's subject
+        how = "assign-export-assign"
+    return {"segs": segs, "quote": rng.choice(["unq", "dq", "dq", "sq"]), "env": env, "classes": classes, "before": before, "after": after, "how": how,
+            "status": rng.choice([0, 3, 127])}
 
 
 def _work(case):
@@ -271,7 +284,7 @@ def run(tier, seed):
     rep = Report("C10", tier, seed)
     rep.rule = ("words of 1..6 adjacent segments {literal, $N, ${N}, $?, $$} over names A AB A_ B X Y Z NOPE (prefixes "
                 "of one another, unset ones), unquoted / double-quoted / single-quoted, under environments (exported by "
-                "the driver, assigned in the line, assigned then exported with a new value, or exported then re-assigned) whose values are plain, blank-containing, $-references, $1, "
+                "the driver, assigned in the line, assigned then exported with a new value, exported then re-assigned, assigned-exported-reassigned, or read into an exported name) whose values are plain, blank-containing, $-references, $1, "
                 "regex-special, backslashes, braces, glob/tilde, empty, self- and mutually referential; a third of the words stand next to "
                 "1..3 other words of the same command written plain, quoted, empty or with an escaped $ / | / blank.  "
                 "Non-trivial = at least one reference; distinct by (word, quote, environment, how).")
